@@ -375,21 +375,42 @@ func c15r4(c *Check) {
 		s   string
 	}
 	var ps []piece
-	allInstrs(ad, func(in ssa.Instruction) {
-		if call, ok := in.(*ssa.Call); ok && calleeName(call.Common()) == "(*bytes.Buffer).WriteString" {
-			var s string
-			if cs, ok := constString(call.Call.Args[1]); ok {
-				s = cs
-			} else if _, names := fieldPath(call.Call.Args[1]); len(names) > 0 {
-				s = "<" + names[len(names)-1] + ">"
-			} else if ic, ok := call.Call.Args[1].(*ssa.Call); ok && calleeName(ic.Common()) == "strconv.Itoa" {
-				s = "<i>"
-			} else {
-				s = "<host>"
+	// a value inside a key-building helper, traced to what its (single) call site passes
+	traceArg := func(v ssa.Value) ssa.Value {
+		for k := 0; k < 4; k++ {
+			par, ok := v.(*ssa.Parameter)
+			if !ok || par.Parent() == ad {
+				return v
 			}
-			ps = append(ps, piece{int(call.Pos()), s})
+			args, ok := c.P.paramArgs(par)
+			if !ok || len(args) != 1 {
+				return v
+			}
+			v = args[0]
 		}
-	})
+		return v
+	}
+	for _, f := range samePkgCallees(c.P, ad) {
+		if f != ad && fnPkg(f) != fnPkg(ad) {
+			continue
+		}
+		allInstrs(f, func(in ssa.Instruction) {
+			if call, ok := in.(*ssa.Call); ok && calleeName(call.Common()) == "(*bytes.Buffer).WriteString" {
+				var s string
+				arg := traceArg(call.Call.Args[1])
+				if cs, ok := constString(arg); ok {
+					s = cs
+				} else if _, names := fieldPath(arg); len(names) > 0 {
+					s = "<" + names[len(names)-1] + ">"
+				} else if ic, ok := arg.(*ssa.Call); ok && calleeName(ic.Common()) == "strconv.Itoa" {
+					s = "<i>"
+				} else {
+					s = "<host>"
+				}
+				ps = append(ps, piece{int(call.Pos()), s})
+			}
+		})
+	}
 	sort.Slice(ps, func(i, j int) bool { return ps[i].pos < ps[j].pos })
 	var pieces []string
 	for _, x := range ps {
@@ -587,11 +608,14 @@ func c15r5(c *Check) {
 	gd := c.P.Func("route", "*ConsistentHasher", "GetDestinationIndex")
 	ringF := c.P.Field("route", "ConsistentHasher", "Ring")
 	var search *ssa.Call
-	allInstrs(gd, func(in ssa.Instruction) {
-		if call, ok := in.(*ssa.Call); ok && calleeName(call.Common()) == "sort.Search" {
-			search = call
-		}
-	})
+	// the lookup may be written in a helper method of the hasher (ringIndex(position))
+	for _, f := range workerFuncs(c.P, gd) {
+		allInstrs(f, func(in ssa.Instruction) {
+			if call, ok := in.(*ssa.Call); ok && calleeName(call.Common()) == "sort.Search" {
+				search = call
+			}
+		})
+	}
 	ok := false
 	detail := "sort.Search not found"
 	if search != nil {
